@@ -127,7 +127,7 @@ func (vc *VC) pureCallee(c *ssa.CallCommon) bool {
 	if fc == nil && callee != nil && callee.Origin() != nil {
 		fc = vc.C.Funcs[CanonName(callee.Origin())]
 	}
-	if fc != nil && fc.Pure && len(fc.Updates) == 0 && !mentionsGhostState(vc, fc) {
+	if fc != nil && fc.Pure && onlyLockUpdates(fc) && !mentionsGhostState(vc, fc) {
 		return true
 	}
 	if fc != nil && fc.HasMod {
@@ -142,4 +142,14 @@ func mentionsGhostState(vc *VC, fc *FuncContract) bool {
 		vc.ghostNamesIn(e.Expr, gn)
 	}
 	return len(gn) > 0
+}
+
+// onlyLockUpdates: the only ghost state the contract updates is the lock set (balanced by obligation).
+func onlyLockUpdates(fc *FuncContract) bool {
+	for _, u := range fc.Updates {
+		if u.Ghost.Name != "held" {
+			return false
+		}
+	}
+	return true
 }
